@@ -64,4 +64,8 @@ Two == {1, 2}
 
 Done == Len(ops) = MaxOps \/ (Len(ops) = 1 /\ ops[1][1] = "Load")
 Emit == Done => PrintT(<<"REPLAY", ToJson([mode |-> st0[1], st |-> st0[2], ops |-> ops])>>)
+(* quick tier: the driver replays a seeded sample of a few thousand sequences anyway, so only every   *)
+(* third maximal sequence (by a fixed arithmetic fingerprint of the calls) is printed                 *)
+Fp == SumSeq([i \in Idx(ops) |-> (ops[i][2] + 2) * (i + 1) + 5 * Len(ops[i][1]) + 3 * Len(ops[i][3]) + 7 * ops[i][4]])
+EmitThird == (Done /\ Fp % 3 = 0) => PrintT(<<"REPLAY", ToJson([mode |-> st0[1], st |-> st0[2], ops |-> ops])>>)
 =============================================================================
